@@ -354,6 +354,12 @@ func runAdv(seed uint64, cfg *C19Config, prog []Op, recs []stepRec, st *C19Stats
 				Detail: fmt.Sprintf("%s %s (%s)", op.Name, what, kd)}
 			break
 		}
+		if d := pooledButLive(w); d != "" {
+			// the invariant of the free lists themselves: what is in one is not reachable from a live tensor
+			viol = &Violation{Property: "C19", Kind: "pool-ledger", Step: k, FailOp: op.Name, Class: "pooled-but-live",
+				Detail: fmt.Sprintf("after %s %s", op.Name, d)}
+			break
+		}
 		if op.Adv != 0 {
 			ar := RNG{s: op.Adv ^ 0x5eed}
 			w.callerScribble()
@@ -788,4 +794,30 @@ func outsideDestChanged(w *World, i int, pre []winRec, dests []int, mask bool) (
 		}
 	})
 	return bad, found
+}
+
+// pooledButLive looks for a []int that sits in a free list of the ints pool while a live tensor uses the same array as
+// its shape or strides (also with length 0: a scalar's access pattern keeps the capacity it was given).
+func pooledButLive(w *World) string {
+	for class := range P.lists[tensor.VerifPoolInts] {
+		fl := &P.lists[tensor.VerifPoolInts][class]
+		for k := 0; k < fl.n; k++ {
+			p := fl.e[k].ptr
+			if p == 0 {
+				continue
+			}
+			for i, t := range w.slots {
+				if t == nil {
+					continue
+				}
+				if firstInt(t.Shape()) == p {
+					return fmt.Sprintf("a slice of capacity %d in the ints pool is the shape slice of live slot %d", class, i)
+				}
+				if firstInt(t.Strides()) == p {
+					return fmt.Sprintf("a slice of capacity %d in the ints pool is the strides slice of live slot %d", class, i)
+				}
+			}
+		}
+	}
+	return ""
 }
